@@ -54,6 +54,23 @@ def run(rep, tier, seed):
         if rng.random() < 0.15:
             from harness.props.c14 import duplicate_operand
             t = duplicate_operand(rng, t)              # e.g. {"xor": [c, c]} against c ^ c
+        if rng.random() < 0.04:
+            # sibling operands of ONE callable whose arguments are mappings of several entries (spelled in either order)
+            # next to mappings that would sort between / before / after them as text
+            L = lambda fn, acts, akw: ("leaf", {"datum": "value", "pre": "none", "fn": fn, "actuals": acts, "akw": akw})   # noqa: E731
+            ks = rng.sample(["a", "b", "k", "m", "q", "z"], 3)
+            big = {ks[0]: rng.choice([1, 2]), ks[1]: rng.choice([0, 1])}
+            if rng.random() < 0.3:
+                big["c"] = 3
+            small = {rng.choice([ks[2], "l", "m", "n"]): rng.choice([0, 1])}
+            if rng.random() < 0.6:
+                x, y = L("items_contain", [], dict(big)), L("items_contain", [], dict(small))
+            else:
+                fn = rng.choice(["equal_to", "not_equal_to", "in_"])
+                x, y = L(fn, [[dict(big), 0] if fn == "in_" else dict(big)], {}), L(fn, [[dict(small), 0] if fn == "in_" else dict(small)], {})
+            t = (rng.choice(["and", "or", "xor"]), x, y) if rng.random() < 0.5 else (rng.choice(["and", "or", "xor"]), y, x)
+            if rng.random() < 0.3:
+                t = (rng.choice(["and", "or"]), t, L("truthy", [], {}))
         has_paths = False
         if rng.random() < 0.12:
             # arguments that are data paths (whole argument, items of a list / tuple, values of a mapping / keyword
